@@ -120,6 +120,25 @@ impl<C: Config> Engine<C> {
     pub(in crate::engine::computation_graph) async fn acquire_active_input_session_guard(
         &self,
     ) -> (WriteTransaction<C>, ActiveInputSessionGuard) {
+        #[cfg(feature = "verif_hooks")]
+        crate::engine::verif::yield_point("input_session::before_phase_lock")
+            .await;
+
+        // Own the exclusive phase lock first. Only then may the timestamp be
+        // bumped and the session's write batch be created: a reader that gets
+        // the shared lock in between would otherwise sample the new timestamp
+        // while the inputs are still the old ones (and stamp what it computes
+        // as verified for the new timestamp), and the early batch would hold
+        // back every batch the still running readers submit.
+        let guard = self
+            .computation_graph
+            .database
+            .sync
+            .phase_mutex
+            .clone()
+            .write_owned()
+            .await;
+
         let mut write_buffer = self
             .computation_graph
             .database
@@ -147,19 +166,6 @@ impl<C: Config> Engine<C> {
             .sync
             .timestamp_map
             .insert((), Timestamp(new_timestamp), &mut write_buffer)
-            .await;
-
-        #[cfg(feature = "verif_hooks")]
-        crate::engine::verif::yield_point("input_session::before_phase_lock")
-            .await;
-
-        let guard = self
-            .computation_graph
-            .database
-            .sync
-            .phase_mutex
-            .clone()
-            .write_owned()
             .await;
 
         (write_buffer, ActiveInputSessionGuard(Arc::new(guard)))
